@@ -20,4 +20,5 @@ def run(ctx, res):
     S = r2.get_sec(ctx)
     r8.rule_joins(S, res)
     r8.rule_sequential(S, res)
+    r8.rule_consumers(S, res)
     r8.rule_roles(S, res)
